@@ -123,7 +123,9 @@ pub fn canon(obj: &TulispObject, out: &mut String, depth: usize) {
         }
         out.push('"');
     } else if obj.symbolp() {
-        out.push_str("y:");
+        // y: a symbol that is (eq to) the interned symbol of its name; u: an uninterned one
+        let interned = INTERNED_CHECK.with(|f| f.borrow().as_ref().map(|g| g(obj)).unwrap_or(true));
+        out.push_str(if interned { "y:" } else { "u:" });
         out.push_str(&escape(&obj.as_symbol().unwrap()).replace(' ', "\\_"));
     } else {
         match verif_kind(obj) {
@@ -143,6 +145,47 @@ pub fn canon(obj: &TulispObject, out: &mut String, depth: usize) {
                 out.push('>');
             }
         }
+    }
+}
+
+thread_local! {
+    /// set while a session's values are rendered: decides whether a symbol object is the interned one
+    pub static INTERNED_CHECK: RefCell<Option<Box<dyn Fn(&TulispObject) -> bool>>> = RefCell::new(None);
+}
+
+/// Render with knowledge of the context's obarray (interned vs uninterned symbols).
+pub fn canon_in(ctx: &mut TulispContext, obj: &TulispObject) -> String {
+    // collect the names first (intern needs &mut), then compare identities while rendering
+    let mut names = vec![];
+    collect_symbols(obj, &mut names, 0);
+    let table: Vec<(String, TulispObject)> = names.into_iter().map(|n| { let s = ctx.intern(&n); (n, s) }).collect();
+    INTERNED_CHECK.with(|f| {
+        *f.borrow_mut() = Some(Box::new(move |o: &TulispObject| {
+            let name = o.as_symbol().unwrap_or_default();
+            table.iter().any(|(n, s)| *n == name && s.eq(o))
+        }))
+    });
+    let r = canon_string(obj);
+    INTERNED_CHECK.with(|f| *f.borrow_mut() = None);
+    r
+}
+
+fn collect_symbols(obj: &TulispObject, out: &mut Vec<String>, depth: usize) {
+    if depth > 400 { return; }
+    if obj.consp() {
+        let mut cur = obj.clone();
+        loop {
+            if let Ok(car) = cur.car() { collect_symbols(&car, out, depth + 1); }
+            match cur.cdr() {
+                Ok(cdr) if cdr.consp() => cur = cdr,
+                Ok(cdr) => { collect_symbols(&cdr, out, depth + 1); break; }
+                Err(_) => break,
+            }
+        }
+    } else if obj.symbolp() {
+        if let Ok(n) = obj.as_symbol() { if !out.contains(&n) { out.push(n); } }
+    } else if let Some(inner) = verif_unwrap(obj) {
+        collect_symbols(&inner, out, depth + 1);
     }
 }
 
@@ -234,12 +277,12 @@ impl Session {
     }
 }
 
-fn fmt_result(ctx: &TulispContext, r: Result<TulispObject, Error>, how: &str) -> String {
+fn fmt_result(ctx: &mut TulispContext, r: Result<TulispObject, Error>, how: &str) -> String {
     match r {
         Ok(v) => match how {
             "print" => format!("OK {}", escape(&v.to_string())),
             "princ" => format!("OK {}", escape(&v.fmt_string())),
-            _ => format!("OK {}", canon_string(&v)),
+            _ => format!("OK {}", canon_in(ctx, &v)),
         },
         Err(e) => match how {
             "errfmt" => format!("ERR {}", escape(&e.format(ctx))),
@@ -265,7 +308,7 @@ fn dump_symbol(ctx: &mut TulispContext, name: &str) -> String {
         }
     }
     let depth = saved.len();
-    let top = saved.first().map(canon_string).unwrap_or_else(|| "-".to_string());
+    let top = saved.first().map(|v| canon_in(ctx, v)).unwrap_or_else(|| "-".to_string());
     for v in saved.into_iter().rev() {
         let _ = sym.set_scope(v);
     }
@@ -295,33 +338,33 @@ fn handle_line(sess: &mut Option<Session>, scratch: &str, line: &str) -> String 
         "EVAL" | "EVALBIG" => {
             let text = unescape(rest);
             let r = s.ctx.eval_string(&text);
-            fmt_result(&s.ctx, r, "canon")
+            fmt_result(&mut s.ctx, r, "canon")
         }
         "PRINT" => {
             let text = unescape(rest);
             let r = s.ctx.eval_string(&text);
-            fmt_result(&s.ctx, r, "print")
+            fmt_result(&mut s.ctx, r, "print")
         }
         "PRINC" => {
             let text = unescape(rest);
             let r = s.ctx.eval_string(&text);
-            fmt_result(&s.ctx, r, "princ")
+            fmt_result(&mut s.ctx, r, "princ")
         }
         "ERRFMT" => {
             let text = unescape(rest);
             let r = s.ctx.eval_string(&text);
-            fmt_result(&s.ctx, r, "errfmt")
+            fmt_result(&mut s.ctx, r, "errfmt")
         }
         "READ" => {
             let text = unescape(rest);
             let r = verif_parse(&mut s.ctx, &text);
-            fmt_result(&s.ctx, r, "canon")
+            fmt_result(&mut s.ctx, r, "canon")
         }
         "BODY" => {
             // canonical body of the function bound to a symbol
             let sym = s.ctx.intern(rest.trim());
             match sym.get().ok().and_then(|f| verif_body(&f)) {
-                Some(b) => format!("OK {}", canon_string(&b)),
+                Some(b) => format!("OK {}", canon_in(&mut s.ctx, &b)),
                 None => "ERR nobody".to_string(),
             }
         }
@@ -338,7 +381,7 @@ fn handle_line(sess: &mut Option<Session>, scratch: &str, line: &str) -> String 
             let _ = std::fs::write(&path, text);
             s.nfiles += 1;
             let r = s.ctx.eval_file(&path);
-            fmt_result(&s.ctx, r, if cmd == "LOADFILE" { "canon" } else { "errfmt" })
+            fmt_result(&mut s.ctx, r, if cmd == "LOADFILE" { "canon" } else { "errfmt" })
         }
         "WRITEFILE" => {
             let (name, text) = match rest.find(' ') {
